@@ -115,10 +115,7 @@ func init() {
 		oldS, newS := x.havocComp(st, name, elemSort(SInt))
 		x.recordStore(name, p.base())
 		x.emit(sx("assert", fmt.Sprintf("(forall ((r Int)) (! (=> (not (= r %s)) (= (select %s r) (select %s r))) :pattern ((select %s r))))", p.base(), newS, oldS, newS)))
-		x.emit(sx("assert", fmt.Sprintf("(forall ((j Int)) (! (=> (and (<= 0 j) (< j %s)) (= (select (select %s %s) (+ %s j)) (select (select %s %s) (+ %s %s j)))) :pattern ((select (select %s %s) (+ %s j)))))",
-			n, newS, p.base(), p.off(), oldS, base, off, pos, newS, p.base(), p.off())))
-		x.emit(sx("assert", fmt.Sprintf("(forall ((j Int)) (! (=> (or (< j %s) (>= j (+ %s %s))) (= (select (select %s %s) j) (select (select %s %s) j))) :pattern ((select (select %s %s) j))))",
-			p.off(), p.off(), n, newS, p.base(), oldS, p.base(), newS, p.base())))
+		x.rangeCopyAxiom(newS, oldS, p.base(), p.off(), n, base, add(off, pos))
 		x.ghostSet(st, "reader$pos", r, add(pos, n))
 		eof, _ := x.globalValueByName(fr, "io", "EOF")
 		errV := Val{T: errorType(), C: []string{ite(atEOF, eof.C[0], "0"), ite(atEOF, eof.C[1], "0")}}
